@@ -50,13 +50,13 @@ def random_items(seed, n):
 
 
 def run(ctx):
-    ctx.mc("text", MODULE, "MC_OAuth1.cfg", overrides={"MaxPairs": ctx.pick(1, 2), "UrlIdx": "{1, 2, 3, 4, 5}"},
+    ctx.mc("text", MODULE, "MC_OAuth1.cfg", timeout=ctx.pick(900, 1500), overrides={"MaxPairs": ctx.pick(1, 2), "UrlIdx": "{1, 2, 3, 4, 5}"},
            required_actions=["AddPair"])
     ov = ctx.pick({"MaxPairs": 2, "Level": 1, "UrlIdx": "{1, 3, 4}", "SecIdx": "{2}", "TokIdx": "{0, 2}"},
                   {"MaxPairs": 2, "Level": 1, "UrlIdx": "{1, 2, 3, 4, 5}", "SecIdx": "{1, 2, 3}", "TokIdx": "{0, 1, 2}"})
-    states = ctx.gen_states("text", MODULE, "Gen_OAuth1.cfg", overrides=ov)
+    states = ctx.gen_states("text", MODULE, "Gen_OAuth1.cfg", timeout=ctx.pick(900, 1500), overrides=ov)
     if not ctx.quick:       # the larger name / value tables on a few request shapes
-        states += ctx.gen_states("text", MODULE, "Gen_OAuth1.cfg",
+        states += ctx.gen_states("text", MODULE, "Gen_OAuth1.cfg", timeout=1500,
                                  overrides={"MaxPairs": 2, "Level": 2, "UrlIdx": "{1}", "SecIdx": "{2}", "TokIdx": "{2}"})
     paths, rel_items = td.paths_from_states(states)
     ctx.replay(paths, td.make_replayer(MODULE), nontrivial=lambda e, p: len(p[0]["args"][0]) >= 1)
